@@ -254,6 +254,9 @@ def build(ctx):
         if meth == '_put':
             # storing a key that is already present would re-add it to the SortedSet under a changed sort key
             top.oblige(st, 'put/stores-only-an-absent-key', z3.Not(z3.Select(st.env['self'].fields['_cache'].has, to_z3(args[0], 'U'))))
+            # the lifetime clock starts when the value is LOADED: only a value this lookup has just awaited from load() may be
+            # stored (re-storing a cached value would restart its clock and let it outlive its lifetime)
+            top.oblige(st, 'put/stores-only-the-value-this-lookup-just-loaded', to_z3(args[1], 'U') == to_z3(st.env['LOADED'], 'U'))
         return orig_put(cls, meth, self_rec, args, kw, st, node, after)
 
     inl.call = call
